@@ -9930,6 +9930,7 @@ bool SoPlexBase<R>::writeDualFileReal(const char* filename, const NameSet* rowNa
                                       const NameSet* colNames, const DIdxSet* intVars, const bool writeZeroObjective) const
 {
    SPxLPBase<R> dualLP;
+   dualLP.setTolerances(this->_tolerances);   // an LP without tolerances is inconsistent as soon as it has columns
    _realLP->buildDualProblem(dualLP);
    dualLP.setOutstream(spxout);
 
